@@ -48,3 +48,13 @@ Definition mode_row_ok (row : string * (list Z * option (list Z))) : bool :=
 Lemma modes_ok : forallb mode_row_ok MODES = true /\ List.length MODES = 7%nat /\
                  MODE_GREGORIAN = "gregorian"%string.
 Proof. repeat split; reflexivity. Qed.
+
+(* everything property C03 needs from the generated tables, in one statement *)
+Lemma tables_all_ok : translator_ok_cal = true /\
+  DAYS_IN_MONTHS_360 = m360 /\ DAYS_IN_MONTHS_365 = m365 /\
+  DAYS_IN_MONTHS_366 = m366 /\ LEAP_YEAR_FACTOR_TRUTHS = leap_factors /\
+  forallb mode_row_ok MODES = true.
+Proof.
+  destruct month_tables_ok as (H1 & H2 & H3).
+  exact (conj translator_accepted (conj H1 (conj H2 (conj H3 (conj leap_factors_ok (proj1 modes_ok)))))).
+Qed.
